@@ -18,6 +18,7 @@ Structural clauses decided, over every body of the five library crates:
     closed receiver; R6 also checks that finished flows are removed under the key they are stored with - C07.R2)
 """
 import json
+import re
 import os
 
 from ..engine import absint as A
@@ -692,6 +693,73 @@ def _loop_test_on(b, S, h, blks, var):
     return False
 
 
+_IDENT = re.compile(r"(?<![\w:$])(?<!(?<!\.)\.)([A-Za-z_][A-Za-z0-9_]*)(?![\w(:])")
+
+
+def _shape(detail):
+    """site rendering with the names of locals replaced by `$` (field names, `self`, paths and callees stay): a reviewed site
+    survives the renaming of a local variable"""
+    return _IDENT.sub(lambda m: m.group(1) if m.group(1) == "self" else "$", detail)
+
+
+def _origin_class(t, depth=0):
+    """coarse, rename-independent class of where an index / bound comes from"""
+    t = T.strip(t)
+    while t[0] == "cast":
+        t = T.strip(t[2])
+    if depth > 4:
+        return "deep"
+    if T.fold_int(t) is not None or t[0] == "const":
+        return "const"
+    if t[0] == "param":
+        return "param"
+    if t[0] == "payload":
+        return "item"           # closure parameter fed by an iterator adapter: the item of the iteration
+    if t[0] == "upvar":
+        return _origin_class(t[2], depth + 1)
+    if t[0] in ("field", "downcast", "deref", "ref"):
+        x = t
+        while x[0] in ("field", "downcast", "deref", "ref"):
+            x = T.strip(x[2] if x[0] == "ref" else x[1])
+        if x[0] == "payload":
+            return "item"
+        if x[0] == "call":
+            last = T.short(x[1]).rsplit("::", 1)[-1]
+            return "item" if last == "next" else "payload:" + last
+        if x[0] == "param":
+            return "param"
+        return "field-of:" + x[0]
+    if t[0] == "call":
+        return "call:" + T.short(t[1]).rsplit("::", 1)[-1]
+    if t[0] == "agg":
+        return "%s(%s)" % ((t[2] or t[1]).rsplit("::", 1)[-1], ",".join(_origin_class(x, depth + 1) for x in t[4]))
+    if t[0] == "phi":
+        return "phi(" + ",".join(sorted({_origin_class(x, depth + 1) for x in t[1]})) + ")"
+    if t[0] == "binop":
+        return "arith"
+    return t[0]
+
+
+def _site_origin(P, ctxs, ob):
+    b, blk = ob["b"], ob["blk"]
+    ax = ctxs.setdefault(b.path, A.Ctx(P, b))
+    n = len(b.blocks[blk]["s"])
+    t = ob["t"]
+    def org(o):
+        x = ax.S.operand(o, blk, n)
+        if b.kind == "Closure":
+            x = T.expand_upvars(P, b, x, depth=3)
+        return _origin_class(x)
+    try:
+        if ob["class"] == "assert":
+            return org(t["ops"][1]) if len(t["ops"]) > 1 else "-"
+        if t["args"]:
+            return org(t["args"][-1])
+    except (RecursionError, IndexError, KeyError):
+        return "?"
+    return "-"
+
+
 # ---------------------------------------------------------------------------
 def rule_sites(ctx):
     P = ctx.program
@@ -732,8 +800,15 @@ def rule_sites(ctx):
             continue
         # reviewed?
         hit = None
+        origin = None
         for e in rev.get((encl(fk), kind), []):
-            if e["match"] in detail:
+            if _shape(e["match"]) in _shape(detail):
+                # the reviewed argument is about where the index comes from: that must not have changed
+                if "origin" in e:
+                    origin = origin or _site_origin(P, ctxs, ob)
+                    if origin != e["origin"]:
+                        reason += "; a reviewed entry exists for this expression but its index now comes from `%s` (reviewed: `%s`)" % (origin, e["origin"])
+                        continue
                 hit = e
                 break
         if hit is not None:
